@@ -10,6 +10,10 @@ CHECKS = {
    "bounded-exhaustive enumeration of (current, desired) schema pairs executed on a real SQLite engine through the schema-apply flow, judged by re-diff and by an independent engine-catalogue comparison",
    "All ordered pairs of schema states built from <=1 feature (quick; plus 2-feature states against their sub-states) or <=2 features (thorough, ~460k pairs) out of 38 elementary SQLite features: the current state is created by our own DDL (two spellings), the desired one is HCL from our own writer; the real inspect/diff/plan/apply runs in a transaction; the second diff must be empty, no statement may be rejected, and the engine catalogue read by our own pragma dump must equal that of the desired schema created directly.",
    "SQLite only (no MySQL/PostgreSQL server in the sandbox); the feature catalogue bounds the schemas; the CLI slice is covered by the CLI-driven checks."),
+ "C02": ("exploration",
+   "bounded-exhaustive enumeration of edit sets over independently built schema graphs for the three real differs, judged by ground-truth change descriptors the generator knows",
+   "For MySQL, PostgreSQL and SQLite differs in the CLI's normalized mode: every elementary edit of a ~45-edit catalogue (one per change kind / kind bit the community build emits, plus multi-bit combinations) alone under 5 listing orders, every compatible pair (thorough: permuted too, and every compatible triple), documented spelling equivalences, identity/deep-copy/permuted copies and schema add/drop: the flattened change tree must equal exactly the expected descriptors (path, type, kind bits); RealmDiff/TableDiff must agree and a repeated diff must not change.",
+   "Connection-less DefaultDiff (no server): version-dependent behaviour is pinned to what the drivers assume offline."),
  "C03": ("exploration",
    "bounded-exhaustive enumeration of database states on a real SQLite engine; both exports are re-materialised on fresh engines and compared by atlas' differ and by an independent catalogue dump",
    "Every engine-valid state with <=2 (thorough <=3) features x 2 DDL spellings is created on a real engine; the HCL export is evaluated, diffed both ways and applied to an empty engine; the SQL export (dump-mode plan, default formatter, read back by the SQLite scanner) is executed on an empty engine and diffed both ways; both recreated catalogues must equal the original; two inspections must produce identical bytes.",
